@@ -157,6 +157,16 @@ class ActionLink(Action):
             prefix = f"{self.target[1].dest}.init_args."
             raise ValueError(f'Target key expected to start with "{prefix}", got "{target}".')
 
+        # Check instantiation link does not create cycle, before anything in the parser is changed
+        if apply_on == "instantiate":
+            parser._links_group._group_actions.append(self)
+            try:
+                self.instantiation_order(parser)
+            except ValueError as ex:
+                raise ValueError(f"Invalid link {source[0]} --> {target}: {ex}") from ex
+            finally:
+                parser._links_group._group_actions.remove(self)
+
         # Replace target action with link action
         if not is_target_subclass or valid_target_leaf:
             for key in self.target[1].option_strings:
@@ -189,13 +199,6 @@ class ActionLink(Action):
 
         # Add link action to group to show in help
         parser._links_group._group_actions.append(self)
-
-        # Check instantiation link does not create cycle
-        if apply_on == "instantiate":
-            try:
-                self.instantiation_order(parser)
-            except ValueError as ex:
-                raise ValueError(f"Invalid link {source[0]} --> {target}: {ex}") from ex
 
         # Initialize link action
         if compute_fn is None:
